@@ -2,7 +2,7 @@
  * from symbolic states; linked with orcutils.c, orcprogram.c. */
 #include "verif.h"
 #include <stdarg.h>
-#include "../../../repo/orc/orcparse.c"
+#include "orcparse.c"
 
 /* ---- stubs ------------------------------------------------------------------------------------------ */
 void orc_debug_print (int level, const char *file, const char *func, int line, const char *format, ...) { }
@@ -169,11 +169,16 @@ void h_directive (void)
   parser.program = mk_program ();
   orc_vector_append (&parser.programs, parser.program);
 #endif
+  /* an earlier .init may have left a name behind (arbitrary parser state) */
+  if (nondet_bool ()) { parser.init_function = v_malloc (3); parser.init_function[0] = 'i'; parser.init_function[1] = 0; }
   OrcLine line;
   mk_line (&line, NTOK, DIRECTIVE);
   int ne0 = parser.errors.n_items;
   OrcProgram *p0 = parser.program;
   int r = orc_parse_handle_directive (&parser, &line);
+  /* whatever the line was, the recorded init function is either absent or a live string (it is handed to the
+   * application with the first program and freed by it) */
+  if (parser.init_function) { char c0 = parser.init_function[0]; (void) c0; }
   V_ASSERT (r == 0 || r == 1, "handler returns");
   V_ASSERT (parser.errors.n_items >= ne0, "errors only accumulate");
   for (int i = 0; i < 4; i++) { if (i < ne0 || i >= parser.errors.n_items) continue;
